@@ -230,6 +230,20 @@ pub fn run_guarded(property: &str, level: &str, body: impl FnOnce(&Report) -> Va
     std::panic::set_hook(Box::new(|info| {
         let (file, line) = info.location().map(|l| (l.file().to_string(), l.line())).unwrap_or_default();
         let msg = info.payload().downcast_ref::<&str>().map(|s| s.to_string()).or_else(|| info.payload().downcast_ref::<String>().cloned()).unwrap_or_default();
+        // a panic raised in a dependency (bytes, nom, core) on behalf of the code under test: attribute it by the
+        // innermost frame that belongs to one of the repository's crates, if it lies above the first harness frame
+        let mut file = file;
+        if !(file.contains("/crates/erltf") || file.contains("/crates/edp_")) {
+            let bt = std::backtrace::Backtrace::force_capture().to_string();
+            for line in bt.lines() {
+                let l = line.trim_start();
+                let sym = l.split_once(": ").map(|x| x.1).unwrap_or("");
+                let is_lib = ["erltf::", "<erltf::", "edp_client::", "<edp_client::", "edp_node::", "<edp_node::", "erltf_serde::", "<erltf_serde::", "edp_elixir_terms::", "<edp_elixir_terms::"].iter().any(|p| sym.starts_with(p));
+                let is_harness = ["etfmc::", "<etfmc::", "netmc::", "<netmc::", "serdemc::", "<serdemc::", "loommc::", "vcore::", "<vcore::"].iter().any(|p| sym.starts_with(p));
+                if is_lib { file = format!("/crates/erltf-or-edp (via backtrace frame {}) raised in {}", sym, file); break; }
+                if is_harness { break; }
+            }
+        }
         let mut g = LAST_PANIC.lock().unwrap_or_else(|e| e.into_inner());
         if g.is_none() {
             eprintln!("panic at {}:{}: {}", file, line, msg);
